@@ -161,6 +161,26 @@ theorem C06_src_scalar_kinds_covered :
     reflectFromGoIntegerFormats = ["INT32", "INT64", "UINT32", "UINT64"] ∧
     reflectFromGoFloatFormats = ["FLOAT32", "FLOAT64"] := by decide
 
+/-- **the `Any` nesting bound of 309b762 ↔ `maxAnyDepth` / `Cfg.anyDepth`** (round 4; what
+`C06_linear_tree`'s factor `anyFactor` rests on): the Go constant has the model's value, the check
+`dec.anyDepth >= maxAnyDepth` is an error arm of `decodeAny` (model: `c.anyDepth ≥ maxAnyDepth` in
+`decAnyMembers`), the nested decode runs at `dec.anyDepth + 1` (model: `{ c with anyDepth :=
+c.anyDepth + 1 }`), and the two entry points start at depth `0`. -/
+theorem C06_src_any_depth_bound :
+    maxAnyDepthConst = J5V.Codec.maxAnyDepth ∧
+    ("dec.anyDepth >= maxAnyDepth", "err") ∈ decodeAnyIfs ∧
+    decodeAnyNestedDepthArgs = ["dec.anyDepth + 1"] ∧
+    decodeRootDepthArgs = ["0", "0"] := by decide
+
+/-- the two remaining type switches of the decoder have an arm for every kind the model
+distinguishes and an ERROR (not a panic, not a fall-through) as default: `decodeRootNested` (object /
+oneof root; model `decRootTree`) and `decodeMapField` (scalar / enum / object / oneof values; model
+`decMapMembers`, whose last arm is `.err "unknown map schema type"`) -/
+theorem C06_src_root_and_map_switches :
+    decodeRootNestedCases = ["Object", "Oneof"] ∧ decodeRootNestedDefaultIsError = true ∧
+    decodeMapFieldCases = ["MapOfScalarField", "MapOfEnumField", "MapOfObjectField", "MapOfOneofField"] ∧
+    decodeMapFieldDefaultIsError = true := by decide
+
 theorem C06_src_extractor_ok : codecExtractorOk = true := by decide
 
 end SourceFacts
